@@ -69,6 +69,15 @@ def _normalised(key, fn):
     return False
 
 
+def block_of_stmt(stmt):
+    p = getattr(stmt, "_parent", None)
+    for field in ("body", "orelse", "finalbody"):
+        lst = getattr(p, field, None)
+        if isinstance(lst, list) and stmt in lst:
+            return lst
+    return None
+
+
 def run(ctx):
     repo = ctx.repo
     fold = Folder(repo)
@@ -307,6 +316,22 @@ def run(ctx):
             ok1 = any(isinstance(x, ast.Raise) and unparse(x.exc).startswith("TagNotFoundError(") for x in n.body)
         if isinstance(n, ast.If) and unparse(n.test) == f"not {IG}":
             ok2 = any(isinstance(x, ast.Raise) and unparse(x.exc).startswith("UnmappedRepeatedGrpError(") for x in n.body)
+    if not (ok1 and ok2):
+        # by facts on the CFG: TagNotFoundError is raised exactly where the lookup verdict is None, UnmappedRepeatedGrpError where it is
+        # not None but false, and the list is returned only where it is true
+        gl = CFG(ggl)
+
+        def pf_(nid):
+            fs_ = set()
+            for t_, lab_ in gl.guards(nid, exc=False):
+                fs_ |= facts(t_, lab_ == "true")
+            return fs_
+        r_nf = [n for n in gl.nodes if n.kind == "stmt" and isinstance(n.ast, ast.Raise) and unparse(n.ast.exc).startswith("TagNotFoundError(")]
+        r_un = [n for n in gl.nodes if n.kind == "stmt" and isinstance(n.ast, ast.Raise) and unparse(n.ast.exc).startswith("UnmappedRepeatedGrpError(")]
+        rets_ = [n for n in gl.nodes if n.kind == "stmt" and isinstance(n.ast, ast.Return)]
+        ok1 = bool(r_nf) and all((f"{IG} is None", True) in pf_(n.id) for n in r_nf)
+        ok2 = bool(r_un) and all(((f"{IG} is None", False) in pf_(n.id) or (f"{IG} is not None", True) in pf_(n.id)) and (IG, False) in pf_(n.id) for n in r_un) \
+            and bool(rets_) and all((IG, True) in pf_(n.id) for n in rets_)
     ctx.instance("C18.typed-lookups", "get_group_list[missing/plain]", ok1 and ok2,
                  "get_group_list() no longer distinguishes a missing tag (TagNotFoundError) from a plain tag (UnmappedRepeatedGrpError)", loc(ggl))
     gi = methods["get_group_by_index"]
@@ -318,8 +343,28 @@ def run(ctx):
                  f"get_group_by_index() checks {tests}: an out-of-range {'negative ' if upper else ''}index escapes as IndexError instead of TagNotFoundError", loc(gi))
     gt = methods["get_group_by_tag"]
     loops = [n for n in walk_no_nested(gt) if isinstance(n, ast.For)]
-    ok = len(loops) == 1 and "get_group_list(" in unparse(loops[0].iter) and any(isinstance(x, ast.Return) for x in walk_no_nested(loops[0])) \
-        and not any(isinstance(x, (ast.Dict, ast.DictComp)) for x in walk_no_nested(gt)) and "reversed" not in unparse(loops[0].iter)
+    # one forward loop over the list get_group_list returned (directly or through a local), left at the first match
+    # (`return item` / `found = item; break`) under the equality test on the item's tag
+    src_ok = False
+    if len(loops) == 1:
+        it = loops[0].iter
+        it_txt = unparse(it)
+        if isinstance(it, ast.Name):
+            dd = [n.value for n in walk_no_nested(gt) if isinstance(n, ast.Assign) and len(n.targets) == 1 and unparse(n.targets[0]) == it.id]
+            src_ok = len(dd) == 1 and "get_group_list(" in unparse(dd[0]) and "reversed" not in unparse(dd[0]) and "sorted" not in unparse(dd[0])
+        else:
+            src_ok = "get_group_list(" in it_txt and "reversed" not in it_txt and "sorted" not in it_txt
+    leave = False
+    if len(loops) == 1 and isinstance(loops[0].target, ast.Name):
+        item = loops[0].target.id
+        for x in walk_no_nested(loops[0]):
+            if isinstance(x, ast.Return) and x.value is not None and unparse(x.value) == item:
+                leave = True
+            if isinstance(x, ast.Break):
+                blk = block_of_stmt(x)
+                if blk and any(isinstance(y, ast.Assign) and unparse(y.value) == item for y in blk):
+                    leave = True
+    ok = len(loops) == 1 and src_ok and leave and not any(isinstance(x, (ast.Dict, ast.DictComp)) for x in walk_no_nested(gt))
     ctx.instance("C18.typed-lookups", "get_group_by_tag[first match in list order]", ok,
                  "get_group_by_tag() no longer scans the items in index order returning the first match", loc(gt))
 
